@@ -1,9 +1,16 @@
 #!/usr/bin/env python3
-"""Print a markdown table from evidence/*.json (whatever tier was run last): evaluations, distinct cases, wall time, main counters."""
-import json, glob, os
+"""Print a markdown table from evidence files: evaluations, distinct cases, wall time, known findings matched.
+  tools_cost_table.py [dir]      dir defaults to evidence/ (whatever tier was run last); evidence_thorough/ holds the thorough copies."""
+import json, glob, os, sys
 HERE = os.path.dirname(os.path.abspath(__file__))
-print('| check | tier | seed | evaluations | distinct non-trivial | wall s | per-case timeouts | known findings matched |')
+d = sys.argv[1] if len(sys.argv) > 1 else 'evidence'
+print('| check | tier | seed | evaluations | distinct non-trivial | wall s (16 cores) | per-case timeouts | known findings matched (occurrences) |')
 print('|---|---|---|---|---|---|---|---|')
-for p in sorted(glob.glob(os.path.join(HERE, 'evidence', 'C*.json'))):
+tot = 0
+for p in sorted(glob.glob(os.path.join(HERE, d, 'C*.json'))):
     e = json.load(open(p)); c = e['coverage']
-    print(f"| {e['property_id']} | {e['tier']} | {e['seed']} | {c['evaluations']} | {c['distinct_nontrivial']} | {e['wall_s']} | {c.get('per_case_timeouts', 0)} | {c.get('known_findings_matched') or ''} |")
+    kf = c.get('known_findings_matched') or {}
+    tot += e['wall_s']
+    kfs = ', '.join('%s (%d)' % (k.split('/', 1)[1], v) for k, v in kf.items())
+    print('| %s | %s | %s | %s | %s | %s | %s | %s |' % (e['property_id'], e['tier'], e['seed'], c['evaluations'], c['distinct_nontrivial'], e['wall_s'], c.get('per_case_timeouts', 0), kfs))
+print(f'| total | | | | | {round(tot)} | | |')
